@@ -8,6 +8,8 @@
 -/
 import YashModel.Glob.FnTheorems
 import YashModel.Glob.EntryLemmas
+import YashModel.Glob.InodeLemmas
+import YashModel.Glob.TildeLemmas
 namespace YashModel.Glob
 
 variable (m : Matcher) (fs : Fs) (field : List AttrChar)
@@ -465,5 +467,239 @@ theorem world_listing_is_entries (w : World) (d : Path) (ns : List Name)
 example : ∃ ns, (fsOfWorld wChain).list ['c', '/'] = some ns ∧ ['l', '9'] ∈ ns :=
   ⟨[dot, dotdot, ['f'], ['l','1'], ['l','2'], ['l','3'], ['l','4'], ['l','5'], ['l','6'], ['l','7'], ['l','8'],
     ['l','9']], by decide, by decide⟩
+
+/-! ### second pass: the member predicate on the inode table, end to end -/
+
+/-- the member predicate on the inode table is the entry-based member over the derived oracles -/
+theorem inodeMember_iff_entryMember (m : Matcher) (w : World) (field : List AttrChar) (p : Path) :
+    InodeMember m w field p ↔ EntryMember m (fsOfWorld w) field p := by
+  unfold InodeMember EntryMember
+  simp only [inodeWitness_eq_ewitness]
+
+theorem inodeResult_iff_entryResult (m : Matcher) (w : World) (noglob : Bool) (field : List AttrChar)
+    (out : List Path) : InodeResult m w noglob field out ↔ EntryResult m (fsOfWorld w) noglob field out := by
+  unfold InodeResult EntryResult
+  simp only [inodeMember_iff_entryMember]
+
+/-- ★★★ **End to end, in one line.**  For every tidy world (inode table with unique keys and plain names:
+    files, directories of any mode, symbolic links of any kind), every field, both settings of `noglob`:
+    a list `out` is the strictly sorted (bytewise) list of exactly the pathnames `p` with
+    `InodeMember fnMatcher w field p` — or `[field with quotes removed]` when `noglob` is set or there is
+    no member — **iff** it is what pathname expansion returns (transcribed `glob.rs` + C04 model of
+    yash-fnmatch + world model of `FileSystem::get`/`fstatat`/`opendir`).  The member predicate is read
+    off the inode table: `World.entryAt` (`world_listing_is_entries`) and `World.resolves`
+    (`world_follow_hop`, `world_follow_mono`). -/
+theorem world_glob_end_to_end (w : World) (h : tidyWorld w = true) (field : List AttrChar) (noglob : Bool)
+    (out : List Path) :
+    InodeResult fnMatcher w noglob field out ↔ out = glob fnMatcher (fsOfWorld w) noglob field := by
+  rw [inodeResult_iff_entryResult]
+  have hg := glob_entry_exact fnMatcher (fsOfWorld w) field (listingsOK_fsOfWorld w h) noglob
+  constructor
+  · intro ho
+    exact entryResult_unique fnMatcher (fsOfWorld w) field noglob _ _ ho hg
+  · intro e
+    rw [e]; exact hg
+
+/-- what `World.entryAt` and `World.resolves` say, unfolded once: an entry is `.`, `..` or a name with an
+    inode below the directory the prefix resolves to (free descriptor, directory, no read bit); a pathname
+    whose look-up ends at a link with target `tgt` resolves iff the retargeted path does with one look-up
+    less — the link's own directory, not the first link's -/
+theorem inode_member_unfolded (w : World) :
+    (∀ pre n, w.entryAt pre n = true ↔
+      (dirPath pre).contains '\x00' = false ∧ w.fdFree = true ∧
+        ∃ key, w.get (absPath (dirPath pre)) = some key ∧ w.isDir key = true ∧
+          (n = dot ∨ n = dotdot ∨ (w.kindAt (key ++ [n])).isSome = true))
+    ∧ (∀ p, w.resolves p = (fsOfWorld w).exist p)
+    ∧ (∀ fuel x n key tgt, '/' ∉ n → w.get (x ++ '/' :: n) = some key →
+        w.kindAt key = some (NodeKind.link tgt) →
+        w.follow (fuel + 1) (x ++ '/' :: n)
+          = w.follow fuel (if tgt.head? = some '/' then tgt else x ++ '/' :: tgt)) := by
+  refine ⟨fun pre n => ?_, fun p => rfl, fun fuel x n key tgt hn hg hk => world_follow_hop w fuel x n hn key tgt hg hk⟩
+  unfold World.entryAt
+  cases hg : w.get (absPath (dirPath pre)) with
+  | none => simp
+  | some key =>
+    simp only [Bool.and_eq_true, Bool.not_eq_true', Bool.or_eq_true, beq_iff_eq, Option.some.injEq]
+    constructor
+    · rintro ⟨⟨h1, h2⟩, h3, h4⟩
+      refine ⟨h1, h2, key, rfl, h3, ?_⟩
+      rcases h4 with (h | h) | h
+      · exact Or.inl h
+      · exact Or.inr (Or.inl h)
+      · exact Or.inr (Or.inr h)
+    · rintro ⟨h1, h2, k, e, h3, h4⟩
+      subst e
+      refine ⟨⟨h1, h2⟩, h3, ?_⟩
+      rcases h4 with h | h | h
+      · exact Or.inl (Or.inl h)
+      · exact Or.inl (Or.inr h)
+      · exact Or.inr h
+
+-- non-vacuity on the world with link chains: `*/l` has exactly the member `e/l`; `*/*` has the dangling `f/l`
+example : InodeMember m₀ wLinks starSlashL ['e', '/', 'l'] := ⟨[['e'], ['l']], by decide, rfl⟩
+example : InodeMember m₀ wLinks starSlashStar ['f', '/', 'l'] ∧ wLinks.resolves ['f', '/', 'l'] = false :=
+  ⟨⟨[['f'], ['l']], by decide, rfl⟩, by decide⟩
+example : wLinks.entryAt ['f', '/'] ['l'] = true ∧ wLinks.entryAt ['f', '/'] ['z'] = false
+    ∧ (w₀ 0o644).entryAt ['p','r','i','v','/'] ['a'] = true
+    ∧ (w₀ 0o644).resolves ['p','r','i','v','/','a'] = false := by decide
+
+/-! ### second pass: the backslash rule of `to_pattern` -/
+
+/-- an unquoted backslash that is not a quoting character and does not come from a hard expansion: in
+    practice one delivered by a parameter expansion or command substitution (`v='\*'; … $v`) — a
+    backslash typed in the word itself is a *quoting* character and is dropped -/
+def ExpansionBackslash (bs : AttrChar) : Prop :=
+  bs.value = '\\' ∧ bs.isQuoting = false ∧ bs.isQuoted = false ∧ bs.origin ≠ Origin.hardExpansion
+
+/-- ★ **The backslash rule of `to_pattern`, exactly as the code has it**: an unquoted backslash from an
+    expansion (with no escape pending) STAYS in the pattern as the ordinary character `Normal('\\')` AND
+    makes the next non-quoting character literal; a quoting character directly after it uses the escape
+    up instead; at the end of the component it is just `Normal('\\')`. -/
+theorem expansion_backslash_rule (bs : AttrChar) (hb : ExpansionBackslash bs) :
+    (∀ x rest, x.isQuoting = false →
+      toPatternChars false (bs :: x :: rest)
+        = PatternChar.normal '\\' :: PatternChar.literal x.value :: toPatternChars false rest)
+    ∧ (∀ g rest, g.isQuoting = true →
+      toPatternChars false (bs :: g :: rest) = PatternChar.normal '\\' :: toPatternChars false rest)
+    ∧ toPatternChars false [bs] = [PatternChar.normal '\\'] := by
+  obtain ⟨hv, hq, hqd, ho⟩ := hb
+  refine ⟨fun x rest hx => ?_, fun g rest hg => ?_, ?_⟩
+  · simp [toPatternChars, hq, hv, hx, hqd, ho]
+  · simp [toPatternChars, hq, hv, hg, hqd, ho]
+  · simp [toPatternChars, hq, hv, hqd, ho]
+
+/-- ★ **what `$v` with `v='\*'` (or `\?`, `\[`, `\\`) looks for**: a component that starts with an
+    expansion backslash followed by the character `x` matches only names of the form `\` `x` … — the
+    backslash itself must be in the name, and `x` stands for itself (never a wildcard).  So `$v` with
+    `v='\*'` finds the entry named `\*`, not `*` and not `\`; any change of this rule (dropping the
+    backslash as POSIX 2.13.1 would, or not escaping) contradicts this theorem. -/
+theorem expansion_backslash_matches (bs x : AttrChar) (rest : List AttrChar) (hb : ExpansionBackslash bs)
+    (hx : x.isQuoting = false) (n : Name)
+    (h : fnMatcher.isMatch (toPattern (bs :: x :: rest)) n = true) :
+    ∃ y, n = '\\' :: x.value :: y
+      ∧ Fnmatch.posixMatch ((toPatternChars false rest).map convPc) y = true := by
+  unfold toPattern at h
+  rw [(expansion_backslash_rule bs hb).1 x rest hx] at h
+  obtain ⟨a, b, e, ha, hb'⟩ := quoted_char_literal_after_wildcards [PatternChar.normal '\\']
+    (toPatternChars false rest) x.value (by intro pc hpc; simp at hpc; subst hpc; decide) n h
+  have := posixMatch_backslash a ha
+  subst this
+  exact ⟨b, e, hb'⟩
+
+private def sc (c : Char) : AttrChar := { value := c, origin := .softExpansion, isQuoted := false, isQuoting := false }
+
+-- non-vacuity: `$v` with v=`\*` is the literal component `\*`; v=`\` is the literal `\`; v=`\\` is `\\`
+example : ExpansionBackslash (sc '\\') := ⟨rfl, rfl, rfl, by decide⟩
+example : fnMatcher.kind (toPattern [sc '\\', sc '*']) = Kind.literal ['\\', '*']
+    ∧ fnMatcher.kind (toPattern [sc '\\']) = Kind.literal ['\\']
+    ∧ fnMatcher.kind (toPattern [sc '\\', sc '\\']) = Kind.literal ['\\', '\\']
+    ∧ fnMatcher.kind (toPattern [sc '\\', sc '*', sc '*']) = Kind.pattern
+    ∧ fnMatcher.isMatch (toPattern [sc '\\', sc '*', sc '*']) ['\\', '*', 'z'] = true
+    ∧ fnMatcher.isMatch (toPattern [sc '\\', sc '*', sc '*']) ['*', 'z'] = false
+    ∧ fnMatcher.isMatch (toPattern [sc '\\', sc '*', sc '*']) ['\\', 'z'] = false := by
+  have e1 : toPattern [sc '\\', sc '*'] = [PatternChar.normal '\\', PatternChar.literal '*'] := by decide
+  have e2 : toPattern [sc '\\'] = [PatternChar.normal '\\'] := by decide
+  have e3 : toPattern [sc '\\', sc '\\'] = [PatternChar.normal '\\', PatternChar.literal '\\'] := by decide
+  have e4 : toPattern [sc '\\', sc '*', sc '*']
+      = [PatternChar.normal '\\', PatternChar.literal '*', PatternChar.normal '*'] := by decide
+  rw [e1, e2, e3, e4]
+  simp only [fnMatcher, fnKind, fnIsMatch]
+  rw [fnCompile_simple _ (by decide), fnCompile_simple _ (by decide), fnCompile_simple _ (by decide),
+    fnCompile_simple _ (by decide)]
+  decide
+
+/-! ### second pass: tilde results are literal (composition with C01) -/
+
+/-- ★★ **Tilde results are literal — composition with C01's model of tilde expansion**: whatever the home
+    directory holds (`*`, `[`, `?`, a trailing slash that C01 drops before a following slash), the
+    attributed characters `Expansion.expandTilde env name slash` produces (C01's transcription of
+    `initial/tilde.rs`, proved equal to its POSIX Spec) enter the pattern of their component as LITERAL
+    characters — the text `Expansion.tildeText env name slash` — and what follows in the field starts
+    with no escape pending: `~/*` with `HOME='*'` is the pattern literal-`*` `/` wildcard-`*`. -/
+theorem tilde_prefix_is_literal (env : Expansion.Env) (name : List Char) (slash : Bool) (rest : List AttrChar) :
+    toPattern ((Expansion.expandTilde env name slash).map ofExp ++ rest)
+      = (Expansion.tildeText env name slash).map PatternChar.literal ++ toPatternChars false rest := by
+  rw [tilde_chars]
+  unfold toPattern
+  by_cases ht : Expansion.tildeText env name slash = []
+  · rw [if_pos ht, ht]
+    simp [toPatternChars]
+  · rw [if_neg ht, toPatternChars_hard_prefix rest _ false ?_ (by simpa using ht)]
+    · simp only [List.map_map]; rfl
+    · intro c hc
+      obtain ⟨d, _, rfl⟩ := List.mem_map.mp hc
+      exact ⟨rfl, rfl⟩
+
+/-- ★ a field that is nothing but a tilde expansion expands to the directory text itself on every file
+    system, whatever characters it holds — no directory is listed -/
+theorem tilde_field_expands_to_itself (env : Expansion.Env) (name : List Char) (slash : Bool) (fs : Fs)
+    (noglob : Bool) :
+    glob fnMatcher fs noglob ((Expansion.expandTilde env name slash).map ofExp)
+      = [Expansion.tildeText env name slash] := by
+  have hq : FullyQuoted ((Expansion.expandTilde env name slash).map ofExp) := by
+    rw [tilde_chars]
+    intro a ha _
+    split at ha
+    · simp only [List.mem_singleton] at ha; subst ha; exact Or.inr rfl
+    · obtain ⟨d, _, rfl⟩ := List.mem_map.mp ha; exact Or.inr rfl
+  have hs : SlashNotQuoting ((Expansion.expandTilde env name slash).map ofExp) := by
+    rw [tilde_chars]
+    intro a ha hv
+    split at ha
+    · simp only [List.mem_singleton] at ha; subst ha; cases hv
+    · obtain ⟨d, _, rfl⟩ := List.mem_map.mp ha; rfl
+  rw [quoted_is_literal_posix fs _ hq hs noglob, tilde_chars]
+  by_cases ht : Expansion.tildeText env name slash = []
+  · rw [if_pos ht, ht]; rfl
+  · rw [if_neg ht]
+    simp [removeQuotes, List.filter_map, Function.comp_def]
+
+-- `~/*` with HOME=`*`: the home directory's star is a literal, the typed one a wildcard
+example : toPattern ([{ value := '*', origin := Origin.hardExpansion, isQuoted := false, isQuoting := false }]
+      ++ [{ value := '/', origin := Origin.literal, isQuoted := false, isQuoting := false },
+          { value := '*', origin := Origin.literal, isQuoted := false, isQuoting := false }])
+    = [PatternChar.literal '*', PatternChar.normal '/', PatternChar.normal '*'] := by decide
+
+/-! ### second pass: the pre-sort order, and `opendir`'s requests -/
+
+/-- ★ **The order of the results before the final sort does not matter** (it cannot be observed:
+    `SearchEnv` is private): whatever order `search_dir` finds the pathnames in — appended or prepended,
+    directories read front to back or not — sorting any rearrangement of them gives the same list.  So
+    `sort_unstable_by` is as good as a stable sort, and nothing about the property hides in that order. -/
+theorem presort_order_irrelevant (m : Matcher) (fs : Fs) (hL : ListingsOK fs) (field : List AttrChar)
+    (l' : List Path) (hp : l'.Perm (searchField m fs field)) :
+    sortPaths l' = sortPaths (searchField m fs field) := by
+  have hnd := searchField_nodup_l m fs hL field
+  have hnd' : l'.Nodup := hp.nodup_iff.mpr hnd
+  apply strictSorted_ext _ _ (sortPaths_strict _ hnd') (sortPaths_strict _ hnd)
+  intro p
+  rw [mem_sortPaths, mem_sortPaths]
+  exact hp.mem_iff
+
+open YashModel.Generated in
+/-- ★ second part of the control tie: the model's `opendir` (`fsOfWorld.list`) restated with the constants
+    re-extracted from `VirtualSystem::opendir` / `resolve_file` on every run — a free descriptor is needed,
+    a directory is needed, and NO permission bit of the directory is asked for (mask 0: in particular not
+    the read bit) —, and found pathnames are appended in reading order (which `searchStep`'s `flatMap`
+    over the listing transcribes) -/
+theorem glob_control_tie_opendir (w : World) (d : Path) :
+    (fsOfWorld w).list d =
+      (if d.contains '\x00' || (GlobTables.opendirNeedsFreeFd && !w.fdFree) then none
+       else match w.get (absPath d) with
+         | some key =>
+           if !GlobTables.opendirNeedsDirectory || w.isDir key then some (dot :: dotdot :: w.children key)
+           else none
+         | none => none)
+    ∧ GlobTables.opendirPermissionMask = 0
+    ∧ GlobTables.resultsAppended = true := by
+  refine ⟨?_, rfl, rfl⟩
+  simp only [fsOfWorld, GlobTables.opendirNeedsFreeFd, GlobTables.opendirNeedsDirectory, Bool.true_and,
+    Bool.not_true, Bool.false_or]
+  rfl
+
+-- non-vacuity: a rearranged result list
+example : [['b'], ['a']].Perm (searchField m₀ fs₀ star) := by
+  rw [show searchField m₀ fs₀ star = [['a'], ['b']] by decide]
+  exact List.Perm.swap _ _ _
 
 end YashModel.Glob
